@@ -28,6 +28,8 @@ EXTENDS Integers, Sequences, FiniteSets, TLC, Json, CSV, IOUtils
 
 CONSTANTS NM,      \* metric streams m1..mNM
           KVals,   \* integer constants usable as leaves (front ends "push" and "ho")
+          Clips,   \* sequence of <<lo, hi>> bounds offered to push_clipper (front end "push");
+                   \* None (-99) = bound absent, lo <= hi when both are present
           Depth,   \* maximal depth of the trees explored exhaustively
           Fronts,  \* front ends explored: subset of {"smin", "sfull", "push", "ho"}
           BinSet,  \* binary operators offered to the front end "ho" (subset of HOBinOps)
@@ -95,6 +97,7 @@ M(i) == [k |-> "m", i |-> i]
 C(v) == [k |-> "c", v |-> v]
 B(op, l, r) == [k |-> "b", op |-> op, l |-> l, r |-> r]
 U(op, a) == [k |-> "u", op |-> op, a |-> a]
+CL(j, a) == [k |-> "cl", j |-> j, a |-> a]          \* push_clipper(Clips[j]) applied to a
 NoTree == [k |-> "none"]
 
 ArithOps == {"+", "-", "*", "/"}
@@ -105,11 +108,12 @@ StrFronts == {"smin", "sfull"}
 MLeaves == {M(i) : i \in Metrics}
 CLeaves == {C(v) : v \in KVals}
 
-RECURSIVE PlainTrees(_, _)       \* + - * / over the given leaves (string formulas, push API)
-PlainTrees(d, L) ==
+RECURSIVE PlainTrees(_, _, _)    \* + - * / over the given leaves (string formulas, push API);
+PlainTrees(d, L, nc) ==          \* push API also: one of the first nc clippers on any sub-expression
     IF d = 0 THEN L
-    ELSE LET S == PlainTrees(d - 1, L) IN
+    ELSE LET S == PlainTrees(d - 1, L, nc) IN
          S \cup {B(op, l, r) : op \in ArithOps, l \in S, r \in S}
+           \cup {CL(j, a) : j \in 1..nc, a \in S}
 
 \* Composition API: a constant can only be the RIGHT operand of a binary operator (there is no
 \* __radd__), never the operand of consumption/production and never the whole formula.
@@ -125,20 +129,20 @@ RECURSIVE MetricsOf(_)
 MetricsOf(e) == CASE e.k = "m" -> {e.i}
                   [] e.k = "c" -> {}
                   [] e.k = "b" -> MetricsOf(e.l) \cup MetricsOf(e.r)
-                  [] e.k = "u" -> MetricsOf(e.a)
+                  [] e.k \in {"u", "cl"} -> MetricsOf(e.a)
 
 TreesOf(f) ==
-    CASE f \in StrFronts -> PlainTrees(Depth, MLeaves)
+    CASE f \in StrFronts -> PlainTrees(Depth, MLeaves, 0)
       \* (a formula without any metric has no fetcher: FormulaEvaluator.apply raises at once and
       \*  FormulaEngine._run retries without ever yielding; not reachable from a formula string
       \*  or the composition API, so outside C05 / C13)
-      [] f = "push" -> {t \in PlainTrees(Depth, MLeaves \cup CLeaves) : MetricsOf(t) # {}}
+      [] f = "push" -> {t \in PlainTrees(Depth, MLeaves \cup CLeaves, Len(Clips)) : MetricsOf(t) # {}}
       [] f = "ho" -> {t \in HOTrees(Depth) : t.k \in {"b", "u"}}
 
 RECURSIVE DepthOf(_)
 DepthOf(e) == CASE e.k \in {"m", "c"} -> 0
                 [] e.k = "b" -> 1 + (IF DepthOf(e.l) > DepthOf(e.r) THEN DepthOf(e.l) ELSE DepthOf(e.r))
-                [] e.k = "u" -> 1 + DepthOf(e.a)
+                [] e.k \in {"u", "cl"} -> 1 + DepthOf(e.a)
 
 -----------------------------------------------------------------------------
 (* Tokens and post-fix steps share one record shape:                           *)
@@ -147,6 +151,7 @@ DepthOf(e) == CASE e.k \in {"m", "c"} -> 0
 OpTok(o) == [t |-> "op", s |-> o, n |-> 0]
 MTok(i) == [t |-> "m", s |-> "m", n |-> i]
 CTok(v) == [t |-> "c", s |-> "c", n |-> v]
+ClipTok(j) == [t |-> "clip", s |-> "clip", n |-> j]      \* push_clipper(Clips[j][1], Clips[j][2])
 LP == OpTok("(")
 RP == OpTok(")")
 Paren(yes, s) == IF yes THEN <<LP>> \o s \o <<RP>> ELSE s
@@ -160,6 +165,9 @@ RECURSIVE RenderMin(_)
 RenderMin(e) ==
     CASE e.k = "m" -> <<MTok(e.i)>>
       [] e.k = "c" -> <<CTok(e.v)>>
+      \* push_clipper clips the last value of the stack: a leaf as it stands, anything else in
+      \* parentheses (the documented way to clip an entire expression)
+      [] e.k = "cl" -> Paren(e.a.k = "b", RenderMin(e.a)) \o <<ClipTok(e.j)>>
       [] e.k = "b" ->
            LET lp == e.l.k = "b" /\ OPrec(e.l.op) < OPrec(e.op)
                rp == e.r.k = "b" /\ OPrec(e.r.op) <= OPrec(e.op)
@@ -197,13 +205,16 @@ Render(f, e) == CASE f = "smin" -> RenderMin(e)
 (* "the arithmetic value of the expression" is Ev of that tree.                *)
 IsBinTok(tk, p) == p <= Len(tk) /\ tk[p].t = "op" /\ tk[p].s \in HOBinOps
 IsUnTok(tk, p) == p <= Len(tk) /\ tk[p].t = "op" /\ tk[p].s \in HOUnOps
+IsClipTok(tk, p) == p <= Len(tk) /\ tk[p].t = "clip"
 
 RECURSIVE PExpr(_, _, _), PLoop(_, _, _, _), PPost(_, _, _), PPrimary(_, _)
 PPrimary(tk, p) ==
     IF tk[p].t = "m" THEN [t |-> M(tk[p].n), p |-> p + 1]
     ELSE IF tk[p].t = "c" THEN [t |-> C(tk[p].n), p |-> p + 1]
     ELSE LET r == PExpr(tk, p + 1, 1) IN [t |-> r.t, p |-> r.p + 1]     \* "(" expr ")"
-PPost(tk, t, p) == IF IsUnTok(tk, p) THEN PPost(tk, U(tk[p].s, t), p + 1) ELSE [t |-> t, p |-> p]
+PPost(tk, t, p) == IF IsUnTok(tk, p) THEN PPost(tk, U(tk[p].s, t), p + 1)
+                   ELSE IF IsClipTok(tk, p) THEN PPost(tk, CL(tk[p].n, t), p + 1)
+                   ELSE [t |-> t, p |-> p]
 PLoop(tk, lhs, p, minp) ==
     IF IsBinTok(tk, p) /\ OPrec(tk[p].s) >= minp
     THEN LET r == PExpr(tk, p + 1, OPrec(tk[p].s) + 1) IN PLoop(tk, B(tk[p].s, lhs, r.t), r.p, minp)
@@ -219,6 +230,12 @@ RECURSIVE Ev(_, _)
 Ev(e, val) ==
     CASE e.k = "m" -> val[e.i]
       [] e.k = "c" -> R(e.v)
+      [] e.k = "cl" ->            \* a missing value stays missing, otherwise clamp into [lo, hi]
+           LET x == Ev(e.a, val)
+               lo == Clips[e.j][1]
+               hi == Clips[e.j][2]
+               y == IF lo # None /\ RLt(x, R(lo)) THEN R(lo) ELSE x IN
+           IF IsNaN(x) THEN NaN ELSE IF hi # None /\ RLt(R(hi), y) THEN R(hi) ELSE y
       [] e.k = "u" ->
            LET x == Ev(e.a, val)
                y == IF e.op = "consumption" THEN x ELSE RNeg(x) IN
@@ -283,6 +300,8 @@ PushMetricOp(bb, i) ==
     [bb EXCEPT !.fetchers = IF InSeq(i, bb.fetchers) THEN bb.fetchers ELSE Append(bb.fetchers, i),
                !.steps = Append(bb.steps, MTok(i))]
 PushConstantOp(bb, v) == [bb EXCEPT !.steps = Append(bb.steps, CTok(v))]
+\* push_clipper: the step goes straight to the program, not onto the build stack
+PushClipperOp(bb, j) == [bb EXCEPT !.steps = Append(bb.steps, ClipTok(j))]
 
 RECURSIVE Rev(_)
 Rev(s) == IF s = <<>> THEN <<>> ELSE Append(Rev(Tail(s)), Head(s))
@@ -291,6 +310,7 @@ FinalizeOp(bb) == [bb EXCEPT !.steps = bb.steps \o Rev(bb.bstack), !.bstack = <<
 PushTok(bb, tk) == CASE tk.t = "op" -> PushOperOp(bb, tk.s)
                      [] tk.t = "m" -> PushMetricOp(bb, tk.n)
                      [] tk.t = "c" -> PushConstantOp(bb, tk.n)
+                     [] tk.t = "clip" -> PushClipperOp(bb, tk.n)
 RECURSIVE FoldToks(_, _, _)
 \* (TLC passes operator arguments lazily; Len(bb.steps) < 0 is never true and only forces bb at
 \*  every level, so that long token streams do not build a deep chain of suspended pushes)
@@ -330,13 +350,25 @@ LegBoth == [minmax |-> TRUE, div |-> TRUE]
 \* observe the operands (they do not depend on the semantics chosen):
 \*   drop  a max/min step met a NaN second operand next to a number
 \*   div0  a division step met a zero divisor
-M0 == [st |-> <<>>, exc |-> "", drop |-> FALSE, div0 |-> FALSE]
+\*   clipnan  a clipper met a NaN (a missing value reached a clipper)
+\*   clipact  a clipper changed a number
+M0 == [st |-> <<>>, exc |-> "", drop |-> FALSE, div0 |-> FALSE, clipnan |-> FALSE, clipact |-> FALSE]
 Push(m, x) == [m EXCEPT !.st = Append(m.st, x)]
 
 ApplyStep(m, s, inp, lg) ==
     IF m.exc # "" THEN m
     ELSE IF s.t = "m" THEN Push(m, inp[s.n])
     ELSE IF s.t = "c" THEN Push(m, R(s.n))
+    ELSE IF s.t = "clip" THEN                   \* Clipper.apply: val = max(val, lo); val = min(val, hi)
+         IF Len(m.st) < 1 THEN [m EXCEPT !.exc = "IndexError"]
+         ELSE LET v == m.st[Len(m.st)]
+                  lo == Clips[s.n][1]
+                  hi == Clips[s.n][2]
+                  w == IF lo # None THEN PyMax(v, R(lo)) ELSE v
+                  u == IF hi # None THEN PyMin(w, R(hi)) ELSE w IN
+              [m EXCEPT !.st = Append(ButLast(m.st), u),
+                        !.clipnan = m.clipnan \/ IsNaN(v),
+                        !.clipact = m.clipact \/ (~IsNaN(v) /\ u # v)]
     ELSE IF s.s = "(" THEN m                                        \* OpenParen.apply: no-op
     ELSE IF s.s \in HOUnOps THEN
          IF Len(m.st) < 1 THEN [m EXCEPT !.exc = "IndexError"]
@@ -366,7 +398,7 @@ EvalPostfix(steps, inp) == EvalPostfixSem(steps, inp, Cur)
 
 \* FormulaEvaluator.apply + FormulaEngine._run: one value per fetcher, all steps, then either a
 \* sample (None for nan) or - when apply() raised - nothing at all for this timestamp
-NoOut == [cnt |-> 0, v |-> NaN, exc |-> "", drop |-> FALSE, div0 |-> FALSE]
+NoOut == [cnt |-> 0, v |-> NaN, exc |-> "", drop |-> FALSE, div0 |-> FALSE, clipnan |-> FALSE, clipact |-> FALSE]
 RoundOfSem(f, z, bb, env, lg) ==
     LET inp == [i \in Metrics |-> IF InSeq(i, bb.fetchers) THEN Input(f, z, i, env) ELSE NaN]
         m == EvalPostfixSem(bb.steps, inp, lg)
@@ -374,7 +406,7 @@ RoundOfSem(f, z, bb, env, lg) ==
     IN [cnt |-> IF bad THEN 0 ELSE 1,
         v |-> IF bad THEN NaN ELSE m.st[1],
         exc |-> IF m.exc # "" THEN m.exc ELSE IF Len(m.st) # 1 THEN "RuntimeError" ELSE "",
-        drop |-> m.drop, div0 |-> m.div0]
+        drop |-> m.drop, div0 |-> m.div0, clipnan |-> m.clipnan, clipact |-> m.clipact]
 RoundOf(f, z, bb, env) == RoundOfSem(f, z, bb, env, Cur)
 
 -----------------------------------------------------------------------------
@@ -407,6 +439,7 @@ Feed(kind, bb) ==
 PushOper == Feed("op", PushOperOp(b, toks[ip].s))
 PushMetric == Feed("m", PushMetricOp(b, toks[ip].n))
 PushConstant == Feed("c", PushConstantOp(b, toks[ip].n))
+PushClipper == Feed("clip", PushClipperOp(b, toks[ip].n))
 
 \* FormulaBuilder.build -> finalize
 Finalize ==
@@ -433,6 +466,7 @@ PickStep == Mode = "exh" /\ pc = "idle" /\ \E f \in Fronts : \E t \in TreesOf(f)
 PushOperStep == pc = "build" /\ PushOper
 PushMetricStep == pc = "build" /\ PushMetric
 PushConstantStep == pc = "build" /\ PushConstant
+PushClipperStep == pc = "build" /\ PushClipper
 FinalizeStep == pc = "build" /\ Finalize
 RoundStep ==
     /\ Mode \in {"exh", "sim"} /\ tick < Len(EnvSeq)
@@ -456,13 +490,15 @@ KSeq == LET RECURSIVE Ks(_)
         IN Ks(KVals)
 
 \* each generator returns <<tree, next generator state>>
-RECURSIVE GenPlain(_, _, _), GenHO(_, _, _)
-GenPlain(d, L, x) ==
+RECURSIVE GenPlain(_, _, _, _), GenHO(_, _, _)
+GenPlain(d, L, nc, x) ==
     LET x1 == Lcg(x)
         x2 == Lcg(x1) IN
     IF d = 0 \/ x1 % 5 = 0 THEN <<Nth(L, x2), x2>>
-    ELSE LET lt == GenPlain(d - 1, L, Lcg(x2))
-             rt == GenPlain(d - 1, L, lt[2])
+    ELSE IF nc > 0 /\ x1 % 5 = 1
+    THEN LET a == GenPlain(d - 1, L, nc, Lcg(x2)) IN <<CL((x2 % nc) + 1, a[1]), a[2]>>
+    ELSE LET lt == GenPlain(d - 1, L, nc, Lcg(x2))
+             rt == GenPlain(d - 1, L, nc, lt[2])
          IN <<B(Nth(ArithSeq, x2), lt[1], rt[1]), rt[2]>>
 GenHO(d, constOk, x) ==
     LET x1 == Lcg(x)
@@ -479,11 +515,11 @@ GenHO(d, constOk, x) ==
 GenRoot(f, x) ==
     LET x1 == Lcg(x) IN
     CASE f \in StrFronts ->
-           LET lt == GenPlain(SimDepth - 1, MSeq, Lcg(x1))
-               rt == GenPlain(SimDepth - 1, MSeq, lt[2]) IN B(Nth(ArithSeq, x1), lt[1], rt[1])
+           LET lt == GenPlain(SimDepth - 1, MSeq, 0, Lcg(x1))
+               rt == GenPlain(SimDepth - 1, MSeq, 0, lt[2]) IN B(Nth(ArithSeq, x1), lt[1], rt[1])
       [] f = "push" ->
-           LET lt == GenPlain(SimDepth - 1, MSeq \o KSeq, Lcg(x1))
-               rt == GenPlain(SimDepth - 1, MSeq \o KSeq, lt[2]) IN B(Nth(ArithSeq, x1), lt[1], rt[1])
+           LET lt == GenPlain(SimDepth - 1, MSeq \o KSeq, Len(Clips), Lcg(x1))
+               rt == GenPlain(SimDepth - 1, MSeq \o KSeq, Len(Clips), lt[2]) IN B(Nth(ArithSeq, x1), lt[1], rt[1])
       [] f = "ho" ->
            LET lt == GenHO(SimDepth - 1, FALSE, Lcg(x1))
                rt == GenHO(SimDepth - 1, TRUE, lt[2]) IN B(Nth(BinSeq, x1), lt[1], rt[1])
@@ -502,7 +538,8 @@ SimPickStep ==
              z == GenZ(f, Lcg(Lcg(sd + 7)))
          IN MetricsOf(t) # {} /\ Pick(t, f, z)
 
-Next == PickStep \/ SimPickStep \/ PushOperStep \/ PushMetricStep \/ PushConstantStep \/ FinalizeStep \/ RoundStep
+Next == PickStep \/ SimPickStep \/ PushOperStep \/ PushMetricStep \/ PushConstantStep \/ PushClipperStep
+           \/ FinalizeStep \/ RoundStep
 
 Spec == Init /\ [][Next]_vars
 
